@@ -744,7 +744,10 @@ void Analyser::AnalyserImpl::analyseNode(const XmlNodePtr &node,
         auto childCount = mathmlChildCount(node);
 
         analyseNode(mathmlChildNode(node, 0), ast, astParent, component, equation);
-        analyseNode(mathmlChildNode(node, 1), ast->mPimpl->mOwnedLeftChild, ast, component, equation);
+
+        if (childCount >= 2) {
+            analyseNode(mathmlChildNode(node, 1), ast->mPimpl->mOwnedLeftChild, ast, component, equation);
+        }
 
         if (childCount >= 3) {
             AnalyserEquationAstPtr astRightChild;
